@@ -177,6 +177,24 @@ def one_input(args):
     return out
 
 
+def tag_documents():
+    """every tag name the scanner / the tag-extension registry knows, in each spelling (open, close,
+    self-closing, with attribute, balanced, unbalanced) inside three contexts"""
+    from mwlib.parser import tagext
+    from mwlib.parser.token.utoken import CompatScanner
+    sc = CompatScanner()
+    sc._init_allowed_tags()
+    names = sorted(set(sc.allowed_tags) | set(tagext.default_registry.name2ext) |
+                   {"nowiki", "pre", "ref", "references", "gallery", "source", "imagemap", "poem", "includeonly", "noinclude", "onlyinclude"})
+    out = []
+    for t in names:
+        for form in (f"<{t}/>", f"<{t} />", f"<{t}>", f"</{t}>", f"<{t}>x</{t}>", f"<{t} a=\"1\" b=2/>", f"<{t}></{t}>", f"<{t}><!-- c --></{t}>"):
+            out.append(form)
+            out.append(f"a {form} b\n\n* {form}\n")
+            out.append("{|\n|-\n| " + form + "\n|}")
+    return out
+
+
 def texts(tier, seed):
     k = 2 if tier == "quick" else 3
     rnd = random.Random(seed)
@@ -194,6 +212,7 @@ def texts(tier, seed):
     from contracts import docgrammar, triggerdocs
     out.extend(docgrammar.documents(tier, seed))
     out.extend(triggerdocs.trigger_documents(tier))
+    out.extend(tag_documents())
     return out
 
 
@@ -217,5 +236,5 @@ def run_passes(tier, seed, want=("c01", "c05", "c06")):
             "bound": f"all sequences of <= 2 lexemes over a {len(LEXEMES)}-lexeme alphabet (every scanner rule, extension tags, "
                      f"out-of-range entities, control / non-BMP characters, attribute triggers of the cleaner) "
                      f"{'+ length 3 over a reduced alphabet ' if tier != 'quick' else ''}+ seeded random sequences of 3..9 lexemes "
-                     f"+ documents of the C02 grammar + trigger documents (pass-enabling classes/ids/styles x table shapes x captions x preceding text; nested tables; blank inline siblings); recursive templates behind the wikidb",
+                     f"+ documents of the C02 grammar + trigger documents (pass-enabling classes/ids/styles x table shapes x captions x preceding text; nested tables; blank inline siblings) + every known tag name in 8 spellings x 3 contexts; recursive templates behind the wikidb",
             "failures": {w: list(f.values()) for w, f in failures.items()}, "samples": samples}
